@@ -156,4 +156,32 @@ example : ∃ arrs, toMarrow {} exFields (exBatch.map (ser exFragRoot)) = .ok ar
   C04_end_to_end_nodict_partial .fixed exO {} "Root" _ exBatch exFields rfl rfl (by decide +kernel) (by simp) (by decide +kernel)
     exExtOK exTrace (by decide +kernel)
 
+/-! non-vacuity of `C04_accept_partial` WITH dictionary-encoded strings: a record type with a `String` and an
+`Option<String>` traces to two `Dictionary(UInt32, LargeUtf8)` columns; `Safe` holds of the fresh root -/
+
+def exDO : Trace.Options := { map_as_struct := false, string_dictionary_encoding := true }
+def exDRoot : Ty := .struct "D" (.cons "s" false (.prim .str) (.cons "t" false (.option (.prim .str)) .nil))
+def exDBatch : List Val :=
+  [.struct (.cons (.str "x") (.cons (.some (.str "y")) .nil)), .struct (.cons (.str "x") (.cons .none .nil))]
+def exDFields : List Field := match Trace.fromType .fixed exDO (toTraceTy exDRoot) with | .ok fs => fs | .error _ => []
+
+theorem exDTrace : Trace.fromType .fixed exDO (toTraceTy exDRoot) = .ok exDFields := by decide +kernel
+
+theorem exDSafe : ∀ root0, newRoot exDFields = .ok root0 → Safe root0 := by
+  intro root0 h0
+  rw [show newRoot exDFields = .ok (.struct "$" 0 none
+    (.cons (.dictionary "$.s" (.leaf "$.s.key" (.int .u32) none []) (.bytes "$.s.value" .largeUtf8 none [0] []) [])
+      ⟨"s", false, []⟩
+      (.cons (.dictionary "$.t" (.leaf "$.t.key" (.int .u32) (some []) []) (.bytes "$.t.value" .largeUtf8 none [0] []) [])
+        ⟨"t", true, []⟩ .nil)) [none, none] 0 [false, false]) from by decide +kernel] at h0
+  cases h0
+  simp [Safe, SafeL, B.isDict]
+
+example : exDFields = [.mk "s" (.dictionary .uint32 .largeUtf8) false [], .mk "t" (.dictionary .uint32 .largeUtf8) true []] := by
+  decide +kernel
+
+example : ∃ arrs, toMarrow {} exDFields (exDBatch.map (ser exDRoot)) = .ok arrs :=
+  C04_accept_partial .fixed exDO {} "D" _ exDBatch exDFields rfl (by decide +kernel) (by decide +kernel) exDTrace exDSafe
+    (by decide +kernel)
+
 end SaModel.Props.C04
